@@ -21,6 +21,8 @@
 #include <math.h>
 #include <signal.h>
 #include <execinfo.h>
+#include <elf.h>
+#include <string>
 #include <vector>
 #include <unordered_map>
 #include <unordered_set>
@@ -351,7 +353,47 @@ Cell *cell_get(uint64_t key, bool create) {
   }
 }
 
+// static functions and file-scope statics are not in the dynamic symbol table: read .symtab of the (non-PIE) executable once
+struct ElfSym { uintptr_t addr, size; std::string name; };
+std::vector<ElfSym> g_elfsyms;
+bool g_elfsyms_loaded = false;
+void load_elf_symbols() {
+  g_elfsyms_loaded = true;
+  FILE *f = fopen("/proc/self/exe", "rb");
+  if (!f) return;
+  Elf64_Ehdr eh;
+  if (fread(&eh, sizeof eh, 1, f) != 1 || memcmp(eh.e_ident, ELFMAG, SELFMAG) != 0 || eh.e_ident[EI_CLASS] != ELFCLASS64) { fclose(f); return; }
+  std::vector<Elf64_Shdr> sh(eh.e_shnum);
+  if (fseek(f, (long)eh.e_shoff, SEEK_SET) != 0 || fread(sh.data(), sizeof(Elf64_Shdr), sh.size(), f) != sh.size()) { fclose(f); return; }
+  for (auto &shd : sh) {
+    if (shd.sh_type != SHT_SYMTAB || shd.sh_link >= sh.size()) continue;
+    std::vector<Elf64_Sym> syms(shd.sh_size / sizeof(Elf64_Sym));
+    std::vector<char> str(sh[shd.sh_link].sh_size);
+    if (fseek(f, (long)shd.sh_offset, SEEK_SET) != 0 || fread(syms.data(), sizeof(Elf64_Sym), syms.size(), f) != syms.size()) break;
+    if (fseek(f, (long)sh[shd.sh_link].sh_offset, SEEK_SET) != 0 || fread(str.data(), 1, str.size(), f) != str.size()) break;
+    for (auto &sy : syms) {
+      int t = ELF64_ST_TYPE(sy.st_info);
+      if ((t != STT_FUNC && t != STT_OBJECT && t != STT_TLS) || sy.st_value == 0 || sy.st_name >= str.size()) continue;
+      if (t == STT_TLS) continue;
+      g_elfsyms.push_back({(uintptr_t)sy.st_value, (uintptr_t)(sy.st_size ? sy.st_size : 1), std::string(&str[sy.st_name])});
+    }
+  }
+  fclose(f);
+  std::sort(g_elfsyms.begin(), g_elfsyms.end(), [](const ElfSym &x, const ElfSym &y) { return x.addr < y.addr; });
+}
+bool elf_lookup(uintptr_t a, std::string &name, uintptr_t &off) {
+  if (!g_elfsyms_loaded) load_elf_symbols();
+  size_t lo = 0, hi = g_elfsyms.size();
+  while (lo < hi) { size_t mid = (lo + hi) / 2; if (g_elfsyms[mid].addr <= a) lo = mid + 1; else hi = mid; }
+  if (lo == 0) return false;
+  const ElfSym &s = g_elfsyms[lo - 1];
+  if (a >= s.addr + s.size) return false;
+  name = s.name; off = a - s.addr;
+  return true;
+}
+
 void symbolise(uintptr_t a, char *out, size_t n, bool is_code) {
+  { std::string nm; uintptr_t off; if (elf_lookup(a, nm, off)) { snprintf(out, n, "%s+0x%lx", nm.c_str(), (unsigned long)off); return; } }
   Dl_info di;
   if (dladdr((void *)a, &di) && di.dli_sname) {
     snprintf(out, n, "%s+0x%lx", di.dli_sname, (unsigned long)(a - (uintptr_t)di.dli_saddr));
